@@ -74,11 +74,12 @@ class C13(CacheProp):
                 if d.get("used") and int(d["used"][0]) != used:
                     fails.append("op %d: used=%s but sum of keyCosts=%d" % (st["n"], d["used"][0], used))
                 # every entry with a TTL is indexed in some bucket
-                bk = {int(x.split(":")[1]) for x in d.get("buckets", [])}
+                last = int(d.get("last", ["0"])[0])
+                bk = {int(x.split(":")[1]) for x in d.get("buckets", []) if int(x.split(":")[0]) > last}   # beyond the sweep's frontier
                 for x in d.get("store", []):
                     k, _, _, exp = x.split(":")
                     if int(exp) != 0 and int(k) not in bk:
-                        fails.append("op %d: key %s has expiration %s but is in no expiry bucket" % (st["n"], k, exp))
+                        fails.append("op %d: key %s has expiration %s but is in no expiry bucket beyond the sweep's frontier" % (st["n"], k, exp))
         return fails
 
 
